@@ -1,4 +1,5 @@
-/-! Driver executable for family `reobserve` — placeholder until the family is built. -/
+import Whv.Driver.Reobserve
+/-! Driver executable for family `reobserve` (C17): case lines on stdin, verdict lines on stdout. -/
 def main : IO UInt32 := do
-  IO.eprintln "family not built"
-  return 2
+  Whv.Driver.ReobserveFam.run (← IO.getStdin)
+  return 0
